@@ -131,7 +131,9 @@ func cutProbes(ctx *core.Ctx, f *fmts.Format, input []byte, seq []int) {
 		for k := range pairs {
 			keys = append(keys, k)
 		}
-		sort.Slice(keys, func(i, j int) bool { return keys[i][0] < keys[j][0] || keys[i][0] == keys[j][0] && keys[i][1] < keys[j][1] })
+		sort.Slice(keys, func(i, j int) bool {
+			return keys[i][0] < keys[j][0] || keys[i][0] == keys[j][0] && keys[i][1] < keys[j][1]
+		})
 		for _, k := range keys {
 			ctx.Stats.Add("cutpair/"+f.Name+"/"+byteClass(k[0], f.Special)+"|"+byteClass(k[1], f.Special), pairs[k])
 		}
